@@ -81,42 +81,71 @@ def rule_group(ctx):
     if okp and any(repr(x) not in keys for x in looks):
       okp, why = False, "the curve object is looked up under another id than the one the signatures are filtered by"
     ctx.record(R, b.where(), "per-curve partition by issuer_key_info.curve_type", okp, "every supported curve gets the signatures of that curve only" if okp else why)
-    # per issuer: unique_vals from that issuer's indices only, ECDSAValues(sigs[idx].ecdsa_sig_info, curve)
-    ev = [e for e in b.events if e.kind == "assign" and e.data["name"] == "unique_vals"]
-    oki = bool(ev)
-    for e in ev:
-      v = as_poly(e.data["value"]).as_atom()
-      # list(set-comp) -> set(map(ECDSAValues(attr(idx(sigs, idx(idxs, bv)),'ecdsa_sig_info'), curve), bv, idxs))
+    # per issuer: the de-duplicated (r, s, z) set is built from that issuer's index list into the same sub-batch, with the partition's curve
+    # set(map(ECDSAValues(sub[idxs[b]].ecdsa_sig_info, CURVE_FACTORY[K]), b, idxs)) - found by value wherever it is bound
+    sets = []
+    for e in b.events:
+      v_ = e.data.get("value") if e.kind == "assign" else None
+      if isinstance(v_, Poly):
+        for a_ in v_.all_atoms():
+          if a_.kind == "set" and "ECDSAValues" in repr(a_)[:4000] and a_ not in sets:
+            sets.append(a_)
+    oki = bool(sets)
+    for v in sets:
       good = False
-      if v is not None and v.kind == "set":
-        m = v.args[0].as_atom()
-        if m is not None and m.kind == "map":
-          elt, bv, src_ = m.args
-          sa = src_.as_atom()
-          # idxs is the value of pks.items() for this issuer
-          if sa is not None and sa.kind == "idx" and sa.args[0].as_atom() is not None and "_MapIssuerSigIndexes" in repr(sa.args[0]):
-            ea = elt.as_atom()
-            if ea is not None and ea.kind == "call" and ea.args[0] == P("lit", "ec_util:ECDSAValues"):
-              sig = ea.args[1]
-              want_sig = sym.mk("attr", sym.mk("idx", as_poly(e.state.env.get("sigs")), sym.mk("idx", src_, Poly.atom(bv))), "ecdsa_sig_info")
-              cv = ea.args[2].as_atom()
-              if sig == want_sig and cv is not None and cv.kind == "idx" and cv.args[0] == P("ref", "ec_util.CURVE_FACTORY"):
-                good = True
+      m = v.args[0].as_atom() if isinstance(v.args[0], Poly) else None
+      if m is not None and m.kind == "map" and len(m.args) == 3 and isinstance(m.args[0], Poly):
+        elt, bv, src_ = m.args
+        sa = as_poly(src_).as_atom()
+        if sa is not None and sa.kind == "idx" and sa.args[0].as_atom() is not None and "_MapIssuerSigIndexes" in repr(sa.args[0]):
+          ea = elt.as_atom()
+          if ea is not None and ea.kind == "call" and ea.args[0] == P("lit", "ec_util:ECDSAValues"):
+            sig = ea.args[1].as_atom()
+            cv = ea.args[2].as_atom()
+            bvp = Poly.atom(bv) if not isinstance(bv, Poly) else bv
+            sub = None
+            if sig is not None and sig.kind == "attr" and sig.args[1] == "ecdsa_sig_info":
+              el = as_poly(sig.args[0]).as_atom()
+              if el is not None and el.kind == "idx" and as_poly(el.args[1]) == sym.mk("idx", as_poly(src_), bvp):
+                sub = as_poly(el.args[0]).as_atom()
+            K = None
+            flt = None
+            if sub is not None and sub.kind == "map" and len(sub.args) == 3 and isinstance(sub.args[2], Poly):
+              flt = sub.args[2].as_atom()
+            elif sub is not None and sub.kind == "filter":
+              flt = sub                        # idx(map(idx(F, b), b, F), j) is normalised to idx(F, j)
+            if flt is not None:
+              K = T.partition_key(flt, b.artifacts)
+            # the index lists come from grouping the same sub-batch
+            same_sub = flt is not None and repr(Poly.atom(flt)) in repr(sa.args[0])
+            if K is not None and same_sub and cv is not None and cv.kind == "idx" and repr(cv.args[0]) == T.FACTORY_REF and as_poly(cv.args[1]) == K:
+              good = True
       oki = oki and good
     ctx.record(R, b.where(), "per-issuer (r, s, z) from that issuer's signatures, duplicates removed", oki,
                "unique ECDSAValues(sigs[idx].ecdsa_sig_info, curve) for idx in the issuer's index list" if oki else "the per-issuer value set is built from other signatures / another curve")
 
 
 def rule_window(ctx):
+  """Window sizes, aligned slices, tiling and the early break of BiasedBaseCheck.Check - read off values: the size is what the slice bounds differ by,
+  the lists are what is sliced, the curve is the factory entry of the partition's curve id."""
   R = "R-C08-WINDOW"
   repo = ctx.repo
   b = body(repo, "BiasedBaseCheck")
-  fn = b.func.node
-  loops = [x for x in ast.walk(fn) if isinstance(x, ast.For) and isinstance(x.target, ast.Name) and x.target.id == "size"]
-  sizes = fold.try_fold(loops[0].iter) if loops else None
-  oks = sizes is not None and {24, 48, 120} <= set(sizes) and list(sizes) == sorted(sizes)
-  ctx.record(R, b.where(), "window sizes include 24, 48, 120 (ascending)", oks, "sizes %r" % (sizes,))
+  from .c10 import apply_floor_lemma, provably_nonneg
+  from .c12 import canon_le
+
+  def literal_sizes(S):
+    """S = idx(seq(24, 48, 120), k) -> [24, 48, 120]"""
+    a = S.as_atom()
+    if a is None or a.kind != "idx":
+      return None
+    sq = as_poly(a.args[0]).as_atom()
+    if sq is None or sq.kind != "seq":
+      return None
+    vals = [as_poly(x).as_int() for x in sq.args]
+    return vals if all(v is not None for v in vals) else None
   calls = [e for e in b.events if e.kind == "call" and e.data["name"].endswith("hidden_number_problem:HiddenNumberProblem")]
+  sizes = None
   oka = bool(calls)
   why = ""
   for e in calls:
@@ -125,48 +154,62 @@ def rule_window(ctx):
       oka = False
       why = "a and b are sliced with different bounds"
       continue
-    lo, hi = a.args[1], a.args[2]
-    size = e.state.env.get("size")
-    if size is None or not (hi - lo - as_poly(size)).is_zero():
+    base, lo, hi = as_poly(a.args[0]), as_poly(a.args[1]), as_poly(a.args[2])
+    S = hi - lo
+    sz = literal_sizes(S)
+    if sz is None:
       oka = False
-      why = "window length is not `size`"
-    # a[i], b[i] filled from the same triple: checked in C09-FEED
-    if as_poly(e.data["args"][3]) != sym.mk("attr", as_poly(e.state.env.get("curve")), "n") or as_poly(e.data["args"][4]) != sym.mk("attr", SELF, "bias"):
+      why = "window length %r is not one of a literal list of sizes" % (S,)
+      continue
+    sizes = sz
+    cv = as_poly(e.data["args"][3]).as_atom()
+    cvb = as_poly(cv.args[0]).as_atom() if cv is not None and cv.kind == "attr" and cv.args[1] == "n" else None
+    okc = cvb is not None and cvb.kind == "idx" and repr(cvb.args[0]) == T.FACTORY_REF and T.partition_key_source(as_poly(cvb.args[1]), b.artifacts) is not None
+    if not okc or as_poly(e.data["args"][4]) != sym.mk("attr", SELF, "bias"):
       oka = False
       why = "order / bias argument changed"
     if not (isinstance(e.data["args"][2], Const) and e.data["args"][2].v is None):
       oka = False
       why = "weight is not left to the default selection"
-  # the windows tile the sample: starts s0 + k*st over range(s0, stop, st) with s0 = 0, st = size, stop >= len(a)
-  from .c10 import apply_floor_lemma, provably_nonneg
-  for e in calls:
-    a_ = as_poly(e.data["args"][0]).as_atom()
-    if a_ is None or a_.kind != "slice":
-      continue
-    base, lo = a_.args[0], a_.args[1]
-    size = as_poly(e.state.env.get("size"))
+    # the windows tile the sample: starts s0 + k*st over range(s0, stop, st) with s0 = 0, st = size, stop >= len(a)
     tiled = False
     for info in b.loops():
       for vis in info.get("visits", []):
-        it = as_poly(vis["iter"]).as_atom()
+        it = as_poly(vis["iter"]).as_atom() if isinstance(vis["iter"], Poly) else None
         if it is None or it.kind != "range" or len(it.args) != 3:
           continue
-        s0, stop, st = it.args
-        if not (lo - (s0 + vis["k"] * st)).is_zero():
+        s0, stop, st = [as_poly(x) for x in it.args]
+        if not (lo - (s0 + as_poly(vis["k"]) * st)).is_zero():
           continue
         D = stop - sym.mk("len", base)
         LB, used = apply_floor_lemma(D, set())
         reach = LB is not None and (LB.is_zero() or provably_nonneg(LB, {x for x in LB.atoms()}))
-        if s0.as_int() == 0 and (st - size).is_zero() and reach:
+        if s0.as_int() == 0 and (st - S).is_zero() and reach:
           tiled = True
         else:
           why = "windows start at %r, advance by %r up to %r: they do not tile all len(a) signatures with stride = size" % (s0, st, stop)
     if not tiled:
       oka = False
       why = why or "window starts are not driven by range(0, >= len(a), size)"
+  oks = sizes is not None and {24, 48, 120} <= set(sizes) and list(sizes) == sorted(sizes)
+  ctx.record(R, b.where(), "window sizes include 24, 48, 120 (ascending)", oks, "sizes %r" % (sizes,))
   ctx.record(R, b.where(), "aligned windows a[i:i+size], b[i:i+size], stride = size", oka, why or "identical slices of a and b, consecutive windows cover every signature")
+  # early break: only under len(list) <= size (in any spelling), for the list that is windowed and the size of the current pass
   brk = [e for e in b.events if e.kind == "break"]
-  okb = all(e.state.pc and e.state.pc[-1][2] is not None and norm(e.state.pc[-1][2].test) in ("len(a) <= size", "size >= len(a)") for e in brk) and len(brk) >= 1
+  okb = len(brk) >= 1
+  for e in brk:
+    good = False
+    for fc in e.facts:
+      cl = canon_le(fc) if fc[0] == "cmp" and fc[1] in ("Lt", "LtE", "Gt", "GtE") else None
+      if cl is None:
+        continue
+      E, bd = cl            # E <= bd
+      lens = [a_ for a_ in E.atoms() if a_.kind == "len"]
+      if len(lens) == 1 and bd <= 0:
+        S_ = Poly.atom(lens[0]) - E
+        if literal_sizes(S_) is not None:
+          good = True
+    okb = okb and good
   ctx.record(R, b.where(), "early break only when one window already holds everything", okb,
              "break dominated by len(a) <= size (accumulation of the guesses: R-C08-ACCUM)" if okb else "the size loop ends early")
   # lcg branch
@@ -174,7 +217,8 @@ def rule_window(ctx):
   okl = bool(lc)
   for e in lc:
     args = e.data["args"]
-    if not (as_poly(args[0]) == as_poly(e.state.env.get("a")) and as_poly(args[1]) == as_poly(e.state.env.get("b")) and as_poly(args[2]) == as_poly(e.state.env.get("curve_id"))):
+    full = all(isinstance(x, Poly) and x.as_atom() is not None and x.as_atom().kind == "listrep" for x in args[:2])
+    if not (full and T.partition_key_source(as_poly(args[2]), b.artifacts) is not None):
       okl = False
   ctx.record(R, b.where(), "LCG branch: all (a, b) of the issuer with the partition's curve id", okl, "HiddenNumberProblemForCurve(a, b, curve_id, lcg, strategy)" if okl else "LCG search receives other data")
 
@@ -480,20 +524,36 @@ def rule_u2f(ctx):
     a = [as_poly(x) for x in e.data["args"]]
     if len(a) != 7:
       continue
-    uv = as_poly(e.state.env.get("unique_vals"))
-    nn = sym.mk("attr", as_poly(e.state.env.get("curve")), "n")
-    comp = lambda k, i: sym.mk("idx", sym.mk("idx", uv, k), Poly.const(i))
-    # pair window: loop index k over range(len(uv) - 1)
-    for info in b.loops():
-      for vis in info.get("visits", []):
-        if as_poly(vis["iter"]) == sym.mk("range", sym.mk("len", uv) - 1):
-          k = vis["k"]
-          if a == [comp(k, 0), comp(k, 1), comp(k, 2), comp(k + 1, 0), comp(k + 1, 1), comp(k + 1, 2), nn]:
-            pair = True
-    last = Poly.const(-1)
-    if a == [comp(last, 0), comp(last, 1), comp(last, 2), Poly.const(1), Poly.const(1), Poly.const(0), nn]:
+    # (r, s, z) triples are components 0, 1, 2 of elements of one list UV: read UV and the two positions off the arguments
+    def triple(xs):
+      ats = [x.as_atom() for x in xs]
+      if any(t is None or t.kind != "idx" or as_poly(t.args[1]).as_int() != i_ for i_, t in enumerate(ats)):
+        return None
+      els = {repr(t.args[0]) for t in ats}
+      el = as_poly(ats[0].args[0]).as_atom()
+      if len(els) != 1 or el is None or el.kind != "idx":
+        return None
+      return as_poly(el.args[0]), as_poly(el.args[1])
+    t1 = triple(a[0:3])
+    if t1 is None:
+      continue
+    uv, pos1 = t1
+    na = a[6].as_atom()
+    cb = as_poly(na.args[0]).as_atom() if na is not None and na.kind == "attr" and na.args[1] == "n" else None
+    if not (cb is not None and cb.kind == "idx" and repr(cb.args[0]) == T.FACTORY_REF and T.partition_key_source(as_poly(cb.args[1]), b.artifacts) is not None):
+      continue
+    t2 = triple(a[3:6])
+    if t2 is not None and t2[0] == uv:
+      # pair window: loop index k over range(len(uv) - 1), elements k and k + 1
+      for info in b.loops():
+        for vis in info.get("visits", []):
+          if isinstance(vis["iter"], Poly) and vis["iter"] == sym.mk("range", sym.mk("len", uv) - 1):
+            k = as_poly(vis["k"])
+            if pos1 == k and t2[1] == k + 1:
+              pair = True
+    elif [x.as_int() for x in a[3:6]] == [1, 1, 0] and (pos1.as_int() == -1 or (pos1 - (sym.mk("len", uv) - 1)).is_zero()):
       single = True
-  upd = [e for e in b.events if e.kind == "mutate" and e.data["method"] == "update" and isinstance(e.data["target"], ast.Name) and e.data["target"].id == "guesses"]
+  upd = [e for e in b.events if e.kind == "mutate" and e.data["method"] in ("update", "__ior__") and e.data["args"] and "Cr50U2fGuesses" in repr(e.data["args"][0])[:300]]
   okw = pair and single and len({id(e.node) for e in upd}) == 2
   ctx.record(R, b.where(), "sliding pair window plus the single-signature attempt", okw, "every adjacent pair and the last signature alone" if okw else "window structure changed")
 
